@@ -225,9 +225,16 @@ def slice(ctx: fw.Ctx) -> fw.Outcome:
     old = sys.getswitchinterval()
     sys.setswitchinterval(1e-6)
     try:
-        for tno in range(ctx.n(4, 40)):
+        # the long tracks full of `N 5` lines (guitar, bass, two drum difficulties), each parsed again and again by a thread of its own:
+        # whatever one instrument's parse switches on or off for its own duration must not be seen by the other's
+        long5 = [k for k, (t, w) in enumerate(cases) if t.count(" = N 5 0") > 200]
+        focused = [[[long5[i % len(long5)]] * 3 for i in range(4)] for _ in range(ctx.n(2, 20))] if len(long5) >= 2 else []
+        for tno in range(ctx.n(4, 40) + len(focused)):
             nthreads = rng.randint(2, 8)
             plan = [[rng.randrange(len(cases)) for _ in range(rng.randint(5, 25))] for _ in range(nthreads)]
+            if tno >= ctx.n(4, 40):
+                plan = focused[tno - ctx.n(4, 40)]
+                nthreads = len(plan)
             results = [None] * nthreads
 
             def work(i):
